@@ -4,6 +4,7 @@ CONSTANTS
   TextSyms = {"a", "*"}
   MaxP = 3
   MaxT = 3
+  MaxL = 2
   Dev = {"StarLiteralFirst"}
 INIT Init
 NEXT Next
